@@ -436,6 +436,7 @@ func (e *env) modify(s *session, st *Step) {
 		s.sent[op.GetId()] = rec
 		e.allOps[op.GetId()] = rec
 	}
+	e.followDiscards()
 	if err := s.mc.Send(&spb.ModifyRequest{Operation: ops}); err != nil {
 		s.dead = true
 		return
